@@ -1543,7 +1543,14 @@ def check(run):
                     'harness/pdfread.py (PDF reader) + the content-stream interpreter, reference painter and geometry '
                     'judge of harness/p_c17.py (Python)',
                     'the abstraction box -> info of harness/impl_c17.py (class tables cross-checked inside Coq)',
-                    'CPython list.sort is stable (modelled by a stable insertion sort)']
+                    'CPython list.sort is stable (modelled by a stable insertion sort)',
+                    'tools/py2coq.py (printer of StackingContext.__init__ and _dispatch into gen/GenStacking.v) and '
+                    'the interpreter base/Py.v: x.f.append(e) / x.f.sort(key=lambda c: c.a) on a list the function '
+                    'created itself are printed as rebinding the attribute (fresh_list_attr), list.sort with that key '
+                    'is the primitive PSortedByAttr (stable insertion sort on a numeric attribute); in _dispatch '
+                    'isinstance / box.is_floated() are answered by the class tables / flt of the model (GD.doracle) '
+                    'and the statements that call from_box / _dispatch_children / list.insert are not translated '
+                    '(printed as "%unsupported" with their text)']
     run.assumptions += [
         'overflow != visible is taken as forming a stacking context (WeasyPrint model; CSS 2.1 does not say so)',
         'draw_background / draw_border / draw_text internals, column backgrounds of tables, marked content and '
